@@ -122,4 +122,24 @@ for route, name, fn in constructs():
             if x is None:
                 continue
             cells.append([kind, route, name, prov, outcome(fn, x, y)])
-json.dump(cells, sys.stdout)
+# comparisons / membership against plain Python values, both operand orders
+PLAIN = {"int": 0, "int1": 1, "bool": True, "none": None, "str": "a", "float": 0.5}
+PCONS = [
+    ("RChained", "x<p<x", lambda x, p: x < p < x), ("RChained", "p<x<p", lambda x, p: p < x < p),
+    ("RMinMax", "min(x,p)", lambda x, p: min(x, p)), ("RMinMax", "max(p,x)", lambda x, p: max(p, x)),
+    ("RMinMax", "sorted", lambda x, p: sorted([x, p])),
+    ("RMember", "x==p", lambda x, p: 1 if x == p else 2), ("RMember", "p==x", lambda x, p: 1 if p == x else 2),
+    ("RMember", "x!=p", lambda x, p: 1 if x != p else 2), ("RMember", "p!=x", lambda x, p: 1 if p != x else 2),
+    ("RMember", "x in [p]", lambda x, p: x in [p, p]), ("RMember", "p in [x]", lambda x, p: p in [x]),
+    ("RMember", "[p].count(x)", lambda x, p: [p].count(x)), ("RMember", "x not in (p,)", lambda x, p: x not in (p,)),
+]
+pcells = []
+for route, name, fn in PCONS:
+    for pname, pv in PLAIN.items():
+        for cls in SCALARS:
+            for prov in ("input", "opres", "ntuple", "object"):
+                pcells.append([cls.__name__, route, name, prov, pname, outcome(fn, scalar(cls, prov), pv)])
+        for kind in ("Array", "Tuple", "NTuple", "Object"):
+            x = collection(kind, "direct")
+            pcells.append([kind, route, name, "direct", pname, outcome(fn, x, pv)])
+json.dump({"cells": cells, "pcells": pcells}, sys.stdout)
